@@ -145,7 +145,7 @@ def proof_step(pid, bindir, extra_targets=()):
         ok, txt = regen_checkorder(bindir)
         if not ok:
             problems.append(txt)
-        ok, log = lake_build(["Gobptree.Props." + pid, "model"] + list(extra_targets))
+        ok, log = lake_build(["Gobptree.Props." + pid, "model", "cmodel"] + list(extra_targets))
         if not ok:
             errs = [l for l in log.splitlines() if "error" in l][:12]
             problems.append("lake build failed for Props." + pid + ": " + " | ".join(errs))
